@@ -74,6 +74,48 @@ def load_known_findings():
     return open_, fixed
 
 
+class _Borrowed:
+    def __init__(self, ctx, rule, origin, only, key_prefix):
+        self._c, self._rule, self._origin, self._only, self._kp = ctx, rule, origin, only, key_prefix
+        self.tier = ctx.tier
+        self.pid = ctx.pid
+        self.extra = {}
+        self.trusted = []
+        self.exhaustive = False
+
+    def rule(self, rid, text):
+        pass
+
+    def ob(self, rule, key, ok, what, loc=None, detail=None, sample=None):
+        r = rule.split(".")[-1]
+        if self._only is not None and r not in self._only:
+            return bool(ok)
+        if self._kp is not None and not key.startswith(self._kp):
+            return bool(ok)
+        return self._c.ob(self._rule, f"{self._origin}.{r}::{key}", ok, f"[{self._origin}.{r}] {what}", loc, detail, None)
+
+    def sample(self, s):
+        pass
+
+    def floor(self, rule, what, count, minimum):
+        r = rule.split(".")[-1]
+        if self._only is not None and r not in self._only:
+            return
+        self._c.floor(self._rule, f"{self._origin}.{r} {what}", count, minimum)
+
+    def count(self, name, n):
+        self._c.count(f"{self._origin}:{name}", n)
+
+    def error(self, msg):
+        self._c.error(f"[{self._origin}] {msg}")
+
+    def note(self, msg):
+        pass
+
+    def assume(self, msg):
+        self._c.assume(msg)
+
+
 class Ctx:
     """One run of one property's check."""
 
@@ -135,6 +177,12 @@ class Ctx:
     def assume(self, msg):
         if msg not in self.assumptions:
             self.assumptions.append(msg)
+
+    def borrowed(self, rule, origin, only=None, key_prefix=None):
+        """A view of this context for re-using another property's rule function: every obligation it
+        records is filed under `rule` of THIS property with its key prefixed by the origin
+        (`C16.R1::...`); `only` restricts to origin rule ids; floors/counts/notes are namespaced."""
+        return _Borrowed(self, rule, origin, only, key_prefix)
 
     # ---- finishing --------------------------------------------------------
     def finish(self) -> int:
